@@ -711,7 +711,8 @@ class LeastSquare:
 
         numbtype = number_type(allknots)
         numbtype = Fraction if (numbtype is int) else numbtype
-        nptsinteg = olddegree + newdegree + 3  # Number integration points
+        # Number integration points: products of two functions of the higher degree
+        nptsinteg = 2 * max(olddegree, newdegree) + 3
         if numbtype is Fraction:
             nodes0to1 = NodeSample.open_linspace(nptsinteg)
             integrator = IntegratorArray.open_newton_cotes(nptsinteg)
